@@ -259,7 +259,8 @@ fn small_bytes(max: usize) -> impl Strategy<Value = Vec<u8>> {
 pub fn msg_case() -> impl Strategy<Value = MsgCase> {
     (
         (prop::sample::select(vec![0u8, 1, 3]), 0u8..3, small_bytes(300), id31(), id31(), id31()),
-        prop_oneof![3 => prop::collection::vec(oid_arcs(12), 0..6), 1 => prop::collection::vec(oid_arcs(16), 0..80)],
+        // a few long OIDs (>= 128 content octets: long-form length *inside* a varbind) besides many short ones
+        prop_oneof![3 => prop::collection::vec(oid_arcs(12), 0..6), 1 => prop::collection::vec(oid_arcs(16), 0..80), 2 => prop::collection::vec(oid_arcs(128), 0..4)],
         (id31(), any::<(bool, bool, bool)>(), small_bytes(300), id31(), id31(), small_bytes(300), any::<bool>(), prop::option::of(small_bytes(600))),
     )
         .prop_map(|((ver, kind, community, request_id, nonrep, maxrep), oids, (msg_id, flags, engine_id, boots, time, user, auth, priv_))| MsgCase {
